@@ -1,4 +1,127 @@
-import ClientGoVerif.Model.Codec
+/-
+  C19 — memory-comparable key and number encodings: order-preserving, invertible, prefix-free, strict decoders.
+  Property theorems only (helper lemmas: Proofs/Bytes, Proofs/CodecBytes, Proofs/CodecNum, Proofs/CodecCmpVarint).
+  Value domains: `U64 v` = v < 2^64, `I64 v` = -2^63 ≤ v < 2^63 (what a Go uint64 / int64 can hold).
+-/
+import ClientGoVerif.Proofs.CodecBytes
+import ClientGoVerif.Proofs.CodecCmpVarint
 namespace CGV.Props.C19
-theorem placeholder : True := trivial
+open CGV CGV.Codec
+
+/-! ## 1. decode ∘ encode = id, and the unconsumed suffix is returned untouched (all 9 encodings) -/
+
+theorem roundtrip_bytes (d rest : Bytes) : decodeBytes (encodeBytes d ++ rest) = .ok (d, rest) :=
+  decode_encode_bytes d rest
+theorem roundtrip_uint (v : Nat) (rest : Bytes) (h : U64 v) : decodeUint (encodeUint v ++ rest) = .ok (v, rest) :=
+  decode_encode_uint v rest h
+theorem roundtrip_uintDesc (v : Nat) (rest : Bytes) (h : U64 v) :
+    decodeUintDesc (encodeUintDesc v ++ rest) = .ok (v, rest) := decode_encode_uintDesc v rest h
+theorem roundtrip_int (v : Int) (rest : Bytes) (h : I64 v) : decodeInt (encodeInt v ++ rest) = .ok (v, rest) :=
+  decode_encode_int v rest h
+theorem roundtrip_intDesc (v : Int) (rest : Bytes) (h : I64 v) :
+    decodeIntDesc (encodeIntDesc v ++ rest) = .ok (v, rest) := decode_encode_intDesc v rest h
+theorem roundtrip_uvarint (v : Nat) (rest : Bytes) (h : U64 v) :
+    decodeUvarint (encodeUvarint v ++ rest) = .ok (v, rest) := decode_encode_uvarint v rest h
+theorem roundtrip_varint (v : Int) (rest : Bytes) (h : I64 v) :
+    decodeVarint (encodeVarint v ++ rest) = .ok (v, rest) := decode_encode_varint v rest h
+theorem roundtrip_cmpUvarint (v : Nat) (rest : Bytes) (h : U64 v) :
+    decodeCmpUvarint (encodeCmpUvarint v ++ rest) = .ok (v, rest) := decode_encode_cuvarint v rest h
+theorem roundtrip_cmpVarint (v : Int) (rest : Bytes) (h : I64 v) :
+    decodeCmpVarint (encodeCmpVarint v ++ rest) = .ok (v, rest) := decode_encode_cvarint v rest h
+
+/-! ## 2. byte order of encodings = order of values (reversed for the descending forms) -/
+
+theorem order_bytes (a b : Bytes) : Bytes.cmp (encodeBytes a) (encodeBytes b) = Bytes.cmp a b :=
+  encodeBytes_cmp a b
+theorem order_uint (a b : Nat) (ha : U64 a) (hb : U64 b) :
+    Bytes.cmp (encodeUint a) (encodeUint b) = compare a b :=
+  cmp_of_strictMono_nat encodeUint U64 encodeUint_lt a b ha hb
+/-- descending unsigned: strictly larger value ⇒ strictly smaller encoding -/
+theorem order_uintDesc (a b : Nat) (ha : U64 a) (hb : U64 b) (h : a < b) :
+    Bytes.cmp (encodeUintDesc b) (encodeUintDesc a) = .lt := encodeUintDesc_gt a b ha hb h
+theorem order_int (a b : Int) (ha : I64 a) (hb : I64 b) :
+    Bytes.cmp (encodeInt a) (encodeInt b) = compare a b :=
+  cmp_of_strictMono_int encodeInt I64 encodeInt_lt a b ha hb
+theorem order_cmpUvarint (a b : Nat) (ha : U64 a) (hb : U64 b) :
+    Bytes.cmp (encodeCmpUvarint a) (encodeCmpUvarint b) = compare a b :=
+  cmp_of_strictMono_nat encodeCmpUvarint U64 encodeCmpUvarint_lt a b ha hb
+theorem order_cmpVarint (a b : Int) (ha : I64 a) (hb : I64 b) :
+    Bytes.cmp (encodeCmpVarint a) (encodeCmpVarint b) = compare a b :=
+  cmp_of_strictMono_int encodeCmpVarint I64 encodeCmpVarint_lt a b ha hb
+/-- descending integers: strictly larger value ⇒ strictly smaller encoding -/
+theorem order_intDesc (a b : Int) (ha : I64 a) (hb : I64 b) (h : a < b) :
+    Bytes.cmp (encodeIntDesc b) (encodeIntDesc a) = .lt := encodeIntDesc_gt a b ha hb h
+
+/-! ## 3. no encoding is a proper prefix of another — a corollary of "round trip with arbitrary suffix" -/
+
+/-- generic: if `dec (enc v ++ s) = ok (v, s)` for all suffixes then `enc` is prefix-free and injective -/
+theorem prefix_free_of_roundtrip {α : Type} (enc : α → Bytes) (dec : Bytes → Res α) (P : α → Prop)
+    (rt : ∀ v s, P v → dec (enc v ++ s) = .ok (v, s)) (a b : α) (ha : P a) (hb : P b) (s : Bytes)
+    (h : enc a ++ s = enc b) : a = b ∧ s = [] := by
+  have h1 := rt a s ha
+  have h2 := rt b [] hb
+  rw [List.append_nil] at h2
+  rw [h, h2] at h1
+  injection h1 with h1
+  injection h1 with h3 h4
+  exact ⟨h3.symm, h4.symm⟩
+
+theorem prefix_free_bytes (a b s : Bytes) (h : encodeBytes a ++ s = encodeBytes b) : a = b ∧ s = [] :=
+  prefix_free_of_roundtrip encodeBytes decodeBytes (fun _ => True) (fun v s _ => decode_encode_bytes v s) a b trivial trivial s h
+theorem prefix_free_uvarint (a b : Nat) (ha : U64 a) (hb : U64 b) (s : Bytes)
+    (h : encodeUvarint a ++ s = encodeUvarint b) : a = b ∧ s = [] :=
+  prefix_free_of_roundtrip encodeUvarint decodeUvarint U64 (fun v s hv => decode_encode_uvarint v s hv) a b ha hb s h
+theorem prefix_free_varint (a b : Int) (ha : I64 a) (hb : I64 b) (s : Bytes)
+    (h : encodeVarint a ++ s = encodeVarint b) : a = b ∧ s = [] :=
+  prefix_free_of_roundtrip encodeVarint decodeVarint I64 (fun v s hv => decode_encode_varint v s hv) a b ha hb s h
+theorem prefix_free_cmpUvarint (a b : Nat) (ha : U64 a) (hb : U64 b) (s : Bytes)
+    (h : encodeCmpUvarint a ++ s = encodeCmpUvarint b) : a = b ∧ s = [] :=
+  prefix_free_of_roundtrip encodeCmpUvarint decodeCmpUvarint U64 (fun v s hv => decode_encode_cuvarint v s hv) a b ha hb s h
+theorem prefix_free_cmpVarint (a b : Int) (ha : I64 a) (hb : I64 b) (s : Bytes)
+    (h : encodeCmpVarint a ++ s = encodeCmpVarint b) : a = b ∧ s = [] :=
+  prefix_free_of_roundtrip encodeCmpVarint decodeCmpVarint I64 (fun v s hv => decode_encode_cvarint v s hv) a b ha hb s h
+theorem prefix_free_int (a b : Int) (ha : I64 a) (hb : I64 b) (s : Bytes)
+    (h : encodeInt a ++ s = encodeInt b) : a = b ∧ s = [] :=
+  prefix_free_of_roundtrip encodeInt decodeInt I64 (fun v s hv => decode_encode_int v s hv) a b ha hb s h
+theorem prefix_free_uint (a b : Nat) (ha : U64 a) (hb : U64 b) (s : Bytes)
+    (h : encodeUint a ++ s = encodeUint b) : a = b ∧ s = [] :=
+  prefix_free_of_roundtrip encodeUint decodeUint U64 (fun v s hv => decode_encode_uint v s hv) a b ha hb s h
+
+/-- hence concatenated fields compare field-wise: equal first fields ⇒ order decided by the rest;
+    different first fields ⇒ order decided by the first field alone (bytes fields) -/
+theorem concat_cmp_bytes (a b s t : Bytes) :
+    Bytes.cmp (encodeBytes a ++ s) (encodeBytes b ++ t) =
+      if a = b then Bytes.cmp s t else Bytes.cmp a b := by
+  by_cases h : a = b
+  · subst h; simp [Bytes.cmp_append_left]
+  · simp only [h, if_false]
+    rw [← encodeBytes_cmp a b]
+    apply cmp_append_of_ne_prefix
+    · rw [encodeBytes_cmp]; intro he; exact h ((Bytes.cmp_eq_iff _ _).mp he)
+    · constructor
+      · intro hp
+        obtain ⟨u, hu⟩ := (Bytes.isPrefix_iff _ _).mp hp
+        exact h (prefix_free_bytes a b u hu.symm).1
+      · intro hp
+        obtain ⟨u, hu⟩ := (Bytes.isPrefix_iff _ _).mp hp
+        exact h (prefix_free_bytes b a u hu.symm).1.symm
+
+/-! ## 4. malformed input: a decoder never yields a wrong value (the model is total: never a panic) -/
+
+theorem sound_bytes (b v r : Bytes) (h : decodeBytes b = .ok (v, r)) : encodeBytes v ++ r = b :=
+  decode_sound_bytes b v r h
+theorem sound_uint (b : Bytes) (v : Nat) (r : Bytes) (h : decodeUint b = .ok (v, r)) : encodeUint v ++ r = b :=
+  decode_sound_uint b v r h
+theorem sound_uintDesc (b : Bytes) (v : Nat) (r : Bytes) (h : decodeUintDesc b = .ok (v, r)) :
+    encodeUintDesc v ++ r = b := decode_sound_uintDesc b v r h
+theorem sound_int (b : Bytes) (v : Int) (r : Bytes) (h : decodeInt b = .ok (v, r)) : encodeInt v ++ r = b :=
+  decode_sound_int b v r h
+theorem sound_intDesc (b : Bytes) (v : Int) (r : Bytes) (h : decodeIntDesc b = .ok (v, r)) :
+    encodeIntDesc v ++ r = b := decode_sound_intDesc b v r h
+
+/-! ## non-vacuity: the hypotheses are met by non-trivial values, and the statements compute -/
+example : U64 (2 ^ 64 - 1) ∧ I64 (-(2 ^ 63)) ∧ I64 (2 ^ 63 - 1) := by unfold U64 I64; omega
+example : decodeCmpVarint (encodeCmpVarint 5 ++ [0xaa, 0xbb]) = .ok (5, [0xaa, 0xbb]) :=
+  roundtrip_cmpVarint 5 _ (by unfold I64; omega)
+
 end CGV.Props.C19
